@@ -56,8 +56,27 @@ func (s *SCEVAddRec) String() string {
 	return fmt.Sprintf("{%s, +, %s}", s.Start.String(), s.Step.String())
 }
 func (s *SCEVAddRec) StringWithRenamer(r Renamer) string {
-	return fmt.Sprintf("{%s, +, %s}", s.Start.StringWithRenamer(r), s.Step.StringWithRenamer(r))
+	// A recurrence is only meaningful together with the loop it advances in: {0, +, 1} of an outer
+	// loop and {0, +, 1} of an inner one are different values (a[i][j] is not a[j][i]).
+	tag := ""
+	if r != nil && s.Loop != nil && s.Loop.Header != nil {
+		if t := r(LoopRef{Loop: s.Loop}); t != "" {
+			tag = "@" + t
+		}
+	}
+	return fmt.Sprintf("{%s, +, %s}%s", s.Start.StringWithRenamer(r), s.Step.StringWithRenamer(r), tag)
 }
+
+// LoopRef is handed to a Renamer in place of a value to ask for a stable label of a loop
+// (renamers that do not know loops return "").
+type LoopRef struct{ Loop *Loop }
+
+func (LoopRef) Name() string                  { return "" }
+func (LoopRef) String() string                { return "" }
+func (LoopRef) Type() types.Type              { return types.Typ[types.Invalid] }
+func (LoopRef) Parent() *ssa.Function         { return nil }
+func (LoopRef) Referrers() *[]ssa.Instruction { return nil }
+func (LoopRef) Pos() token.Pos                { return token.NoPos }
 func (s *SCEVAddRec) Name() string                  { return "scev_addrec" }
 func (s *SCEVAddRec) Type() types.Type              { return types.Typ[types.Int] }
 func (s *SCEVAddRec) Parent() *ssa.Function         { return nil }
